@@ -305,6 +305,106 @@ def shipped_jobs():
     return jobs
 
 
+# ---------------------------------------------------------------- tie of the proved fragment model (XCodegenExpr.cg) to the real xcmp
+def frag_expr(rng, depth):
+    """an expression of the proved fragment: numbers, globals g0/g1, + and - with simple right operands"""
+    def const():
+        v = rng.choice([0, 1, 2, 3, 7, 15, 16, 255, 256, 4095, 4096, 65535, 65534, 1000])
+        return ('num', v) if rng.random() < 0.8 else ('neg', ('num', v))
+    def ctree(d):
+        if d <= 0 or rng.random() < 0.5:
+            c = const()
+            return c if c[0] == 'num' else ('num', (-c[1][1]) % (1 << 32))
+        return ('bin', rng.choice(['+', '-']), ctree(d - 1), ctree(d - 1))
+    def right():
+        r = rng.random()
+        if r < 0.4:
+            return ('var', rng.choice(['g0', 'g1']))
+        if r < 0.75:
+            c = const()
+            return c if c[0] == 'num' else ('num', (-c[1][1]) % (1 << 32))
+        return ctree(2)
+    if depth <= 0 or rng.random() < 0.15:
+        return right()
+    return ('bin', rng.choice(['+', '-']), frag_expr(rng, depth - 1), right())
+
+
+def listing_instrs(text):
+    """(mnemonic, operand) of the instruction lines of an `xcmp -S` listing"""
+    import re
+    out = []
+    for line in text.split('\n'):
+        m = re.match(r'^(?:0x)?[0-9a-fA-F]+\s+([A-Z]+)\s+(\S+)(?:\s+\((-?\d+)\))?\s+\(\d+ bytes\)', line)
+        if not m:
+            out.append(('', line.strip()))
+            continue
+        mn, op, val = m.group(1), m.group(2), m.group(3)
+        if mn == 'OPR':
+            out.append((op, None))
+        else:
+            out.append((mn, int(val) if val is not None else int(op) if re.match(r'^-?\d+$', op) else op))
+    return out
+
+
+def fragment_tie(ck, tools, scr, n):
+    """the extracted model cg against the instructions the real xcmp emits for the same expression"""
+    rng = ck.rng
+    exprs = [frag_expr(rng, rng.randint(0, 6)) for _ in range(n)]
+    d = tempfile.mkdtemp(dir=scr)
+    agree = outside = 0
+    lines = []
+    real = []
+    for i, e in enumerate(exprs):
+        src = b'var g0;\nvar g1;\nproc main() is { g0 := 1; g1 := 2; 0(' + xcommon.x_expr(e, True, 0) + b') }\n'
+        open(os.path.join(d, 'f.x'), 'wb').write(src)
+        rc, out, err = xcommon._run([tools.xcmp, 'f.x', '-S'], d, timeout=60)
+        ins = listing_instrs(out.decode('latin-1')) if rc == 0 else None
+        code = None
+        amap = None
+        if ins is not None:
+            try:
+                k = next(j for j, x in enumerate(ins) if x[1] == 'PROC main' or (x[0] == '' and x[1].endswith('PROC main')))
+            except StopIteration:
+                k = None
+            if k is not None:
+                st = [j for j in range(k, len(ins)) if ins[j][0] == 'STAM' and ins[j][1] != 1]
+                svc = [j for j in range(k, len(ins)) if ins[j][0] == 'SVC']
+                if len(st) >= 2 and svc and ins[svc[0] - 3:svc[0]] == [('LDBM', 1), ('STAI', 2), ('LDAC', 0)]:
+                    amap = {'g0': ins[st[0]][1], 'g1': ins[st[1]][1]}
+                    code = [x for x in ins[st[1] + 1:svc[0] - 3] if x[0] != '']
+        real.append((src, code, amap))
+        if amap is None:
+            lines.append('g0=2 g1=3 | ' + xcommon.sx_expr(e))
+        else:
+            lines.append('g0=%d g1=%d | %s' % (amap['g0'], amap['g1'], xcommon.sx_expr(e)))
+    rc, out, err = xcommon._run([tools.hv, 'xcg'], d, ('\n'.join(lines) + '\n').encode(), 300)
+    model = out.decode().strip().split('\n')
+    if rc != 0 or len(model) != len(exprs):
+        ck.broken.append('extracted cg failed rc=%d %s' % (rc, err[-200:]))
+        return
+    sample = None
+    for (src, code, amap), mo in zip(real, model):
+        if mo == 'none':
+            outside += 1
+            continue
+        want = []
+        for tok in mo.split('; '):
+            w = tok.split()
+            want.append((w[0], int(w[1]) if len(w) > 1 else None))
+        if code is None or code != want:
+            ck.broken.append('model XCodegenExpr.cg differs from the real xcmp on %r: model %r, xcmp %r' % (src.decode('latin-1'), want, code))
+            if len(ck.broken) > 3:
+                break
+        else:
+            agree += 1
+            sample = {'x_source': src.decode('latin-1'), 'model_and_xcmp': mo}
+    ck.cov['fragment_model_tie'] = {'expressions': len(exprs), 'in_fragment_identical_code': agree, 'outside_fragment': outside}
+    if sample:
+        ck.sample(sample)
+    shutil.rmtree(d, ignore_errors=True)
+
+
+
 def replay(ck, tools, scr, path, monitor):
     o = json.load(open(path))
     _init(tools, scr, {'monitor': monitor, 'hexsim': True})
@@ -365,6 +465,7 @@ def main():
         pool = multiprocessing.Pool(nproc, _init, (tools, scr, opts))
         n = 1500 if not ck.thorough() else 40000
         base = ck.rng.randrange(1 << 30)
+        fragment_tie(ck, tools, scr, 150 if not ck.thorough() else 1500)
         jobs = corpus_jobs(PID) + directed_jobs() + shipped_jobs() + [('gen', base + i) for i in range(n)]
         results = pool.map(job, jobs, chunksize=8)
     summarise(ck, results, pool)
